@@ -347,9 +347,21 @@ func (c *wsConn) cancelCtx(req frame) {
 		return
 	}
 
+	if len(params) < 1 {
+		log.Errorf("%s: missing request id param", wsCancel)
+		return
+	}
+
 	var id interface{}
 	if err := json.Unmarshal(params[0].data, &id); err != nil {
 		log.Error("handle me:", err)
+		return
+	}
+
+	// ids of other types can't be used as map keys
+	id, err := normalizeID(id)
+	if err != nil {
+		log.Errorf("%s: %s", wsCancel, err)
 		return
 	}
 
@@ -370,6 +382,11 @@ func (c *wsConn) handleChanMessage(frame frame) {
 	var params []param
 	if err := json.Unmarshal(frame.Params, &params); err != nil {
 		log.Error("failed to unmarshal channel id in xrpc.ch.val: %s", err)
+		return
+	}
+
+	if len(params) < 2 {
+		log.Errorf("xrpc.ch.val: expected 2 params, got %d", len(params))
 		return
 	}
 
@@ -399,6 +416,11 @@ func (c *wsConn) handleChanClose(frame frame) {
 	var params []param
 	if err := json.Unmarshal(frame.Params, &params); err != nil {
 		log.Error("failed to unmarshal channel id in xrpc.ch.val: %s", err)
+		return
+	}
+
+	if len(params) < 1 {
+		log.Errorf("xrpc.ch.close: missing channel id param")
 		return
 	}
 
